@@ -9,7 +9,26 @@ from ..core import CaseResult, Check
 from ..engines import values as V
 
 
-COUPLED = {"dip": ("vertical",), "vertical": ("dip",)}
+def parts_segments(labels):
+    """Segments a part labelling stands for: consecutive vertices of the same part (as sorted pairs)."""
+    labels = [int(v) for v in np.asarray(labels).ravel().tolist()]
+    pairs = []
+    for part in sorted(set(labels)):
+        ind = [i for i, v in enumerate(labels) if v == part]
+        pairs += [[a, b] for a, b in zip(ind[:-1], ind[1:])]
+    return [float(x) for pair in sorted(pairs) for x in pair]
+
+
+def cells_as_pairs(entity):
+    cells = getattr(entity, "cells", None)
+    if cells is None:
+        return []
+    return [float(x) for pair in sorted(sorted(int(v) for v in row) for row in np.asarray(cells).reshape(-1, 2).tolist())
+            for x in pair]
+
+
+COUPLED = {"dip": ("vertical",), "vertical": ("dip",), "parts": ("cells",), "cells": ("parts",),
+           "coordinate_reference_system": ("metadata",), "metadata": ("coordinate_reference_system",)}
 
 
 def _pairs():
@@ -43,6 +62,13 @@ class C03(Check):
             for r in range(reps):
                 out.append({"owner": owner, "cls": cname, "geom": {"n": 3 + r % 3, "g": [1 + r, 2, -3, 4, r, 5]},
                             "ops": [{"attr": attr, "seed": [1 + r, 2 * r + 1, 3, r]}], "reload_first": bool(r % 2)})
+            # "blind": nothing is read back on the live entity after the assignment (a getter could re-derive and
+            # re-write what the setter failed to store); "inplace": the array the getter returned is edited in place
+            # and the very same object is assigned back (the usual read-modify-write idiom)
+            out.append({"owner": owner, "cls": cname, "geom": {"n": 4, "g": [2, 2, -3, 4, 1, 5]},
+                        "ops": [{"attr": attr, "seed": [3, 5, 2, 1]}], "reload_first": False, "blind": True})
+            out.append({"owner": owner, "cls": cname, "geom": {"n": 4, "g": [2, 2, -3, 4, 1, 5]},
+                        "ops": [{"attr": attr, "seed": [2, 7, 1, 4], "inplace": True}], "reload_first": True})
             # two assignments to the SAME attribute: a typical value, then the falsy/default value (a reset);
             # and a whole-number int followed by a fractional float (stored type must follow the value)
             out.append({"owner": owner, "cls": cname, "geom": {"n": 3, "g": [1, 2, -3, 4, 0, 5]},
@@ -115,6 +141,9 @@ class C03(Check):
                     res.label("target_lost_on_reload")
                     return res
             done = []
+            blind = bool(program.get("blind"))
+            if blind:
+                res.label("blind-assignment")
             if extra or ws_kwargs:
                 res.label("created-with-int-attribute")
             for op in ops:
@@ -132,6 +161,16 @@ class C03(Check):
                     before = V.flat(getattr(target, attr))
                 except Exception:
                     before = None
+                if op.get("inplace") and isinstance(value, np.ndarray) and not value.dtype.names:
+                    try:
+                        cur = getattr(target, attr)
+                    except Exception:
+                        cur = None
+                    if (isinstance(cur, np.ndarray) and cur.shape == value.shape and not cur.dtype.names
+                            and cur.flags.writeable and np.can_cast(value.dtype, cur.dtype, "safe")):
+                        cur[...] = value
+                        value = cur
+                        res.label("assigned-in-place")
                 given = value.copy() if isinstance(value, np.ndarray) else value
                 try:
                     setattr(target, attr, value)
@@ -146,6 +185,20 @@ class C03(Check):
                     want = V.flat({int(k): v for k, v in full.items()})
                 if exp == "colormap":
                     want = None
+                if blind:
+                    got_val = None
+                    if exp == "colormap":
+                        want = [float(x) for x in np.asarray(given).ravel().tolist()]
+                        getter = lambda t, a=attr: [float(x) for x in np.asarray(getattr(t, a).values).T.ravel().tolist()]  # noqa: E731
+                    elif attr == "parts":
+                        want, getter = parts_segments(given), cells_as_pairs
+                    elif exp == "skip-getter":
+                        want = getter = None
+                    else:
+                        getter = lambda t, a=attr: V.flat(getattr(t, a))  # noqa: E731
+                    done = [d for d in done if d[0] != attr and d[0] not in COUPLED.get(attr, ())]
+                    done.append((attr, want, getter, before != want))
+                    continue
                 try:
                     got_val = getattr(target, attr)
                 except Exception as exc:
@@ -155,6 +208,10 @@ class C03(Check):
                     got = [float(x) for x in np.asarray(got_val.values).T.ravel().tolist()]
                     want = [float(x) for x in np.asarray(given).ravel().tolist()]
                     getter = lambda t, a=attr: [float(x) for x in np.asarray(getattr(t, a).values).T.ravel().tolist()]  # noqa: E731
+                elif attr == "parts":
+                    # the labels are a view of the segments: what must persist are the segments they stand for
+                    want, getter = parts_segments(given), cells_as_pairs
+                    got = getter(target)
                 elif exp == "skip-getter":
                     got = want = None
                     getter = None
@@ -171,8 +228,8 @@ class C03(Check):
                 done.append((attr, want, getter, before != want))
             if not done:
                 return res
-            live_snap = snap_entity(ent) if ent is not None else None
-            live_type = snap_type(ent.entity_type) if ent is not None else None
+            live_snap = snap_entity(ent) if ent is not None and not blind else None
+            live_type = snap_type(ent.entity_type) if ent is not None and not blind else None
             ws.close()
             del ent, target
             ws = Workspace(path, mode="r")
@@ -194,7 +251,7 @@ class C03(Check):
                     return res
                 if changed:
                     res.nontrivial = True
-            if ent2 is not None:
+            if ent2 is not None and not blind:
                 fresh_snap = snap_entity(ent2)
                 fresh_type = snap_type(ent2.entity_type)
                 for key in sorted(set(live_snap) | set(fresh_snap)):
@@ -217,6 +274,8 @@ class C03(Check):
     def shrink_candidates(self, program):
         if program.get("reload_first"):
             yield {**program, "reload_first": False}
+        if program.get("blind"):
+            yield {**program, "blind": False}
         for i, op in enumerate(program["ops"]):
             if len(op["seed"]) > 1:
                 ops = list(program["ops"])
